@@ -55,6 +55,7 @@ type Run struct {
 	knownWhat    map[string]string
 	inconclusive []string
 	incomplete   []string
+	classes      map[string]int
 	start        time.Time
 	dir          string
 	findings     []Finding
@@ -201,6 +202,10 @@ func (r *Run) Violate(v Violation) {
 		}
 	}
 	r.nviol++
+	if r.classes == nil {
+		r.classes = map[string]int{}
+	}
+	r.classes[v.Class]++
 	if len(r.violations) < 5 {
 		r.violations = append(r.violations, v)
 	}
@@ -267,6 +272,9 @@ func (r *Run) Finish() int {
 		"assumptions":        append([]string{"the Go toolchain, runtime and race detector", "the harness oracles in /verif/harness (reference models written from the property statement)"}, r.assumptions...),
 		"known_findings_hit": r.known,
 	}
+	if len(r.classes) > 0 {
+		evd["violation_classes"] = r.classes
+	}
 	code := 0
 	if r.evals == 0 || len(r.distinct) < 2 || len(r.samples) == 0 {
 		if !r.ReplayOnly {
@@ -314,6 +322,7 @@ func (r *Run) Finish() int {
 			fmt.Printf("VIOLATION property=%s replay=%s\n", r.Prop, path)
 			fmt.Printf("  case=%s class=%s: %s\n", v.Case, v.Class, strings.ReplaceAll(msg, "\n", "\\n"))
 		}
+		fmt.Printf("  violation classes: %v\n", r.classes)
 		if r.nviol > len(r.violations) {
 			fmt.Printf("  (+%d further violations not listed)\n", r.nviol-len(r.violations))
 		}
@@ -352,6 +361,7 @@ type dump struct {
 	KnownWhat    map[string]string   `json:"known_what"`
 	Inconclusive []string            `json:"inconclusive"`
 	Incomplete   []string            `json:"incomplete"`
+	Classes      map[string]int      `json:"classes"`
 }
 
 // DumpTo writes the run's state to path (child side).
@@ -359,7 +369,7 @@ func (r *Run) DumpTo(path string) error {
 	r.mu.Lock()
 	defer r.mu.Unlock()
 	d := dump{Evals: r.evals, Samples: r.samples, Counters: r.counters, Sets: map[string][]string{}, Violations: r.violations, NViol: r.nviol,
-		Known: r.known, KnownWhat: r.knownWhat, Inconclusive: r.inconclusive, Incomplete: r.incomplete}
+		Known: r.known, KnownWhat: r.knownWhat, Inconclusive: r.inconclusive, Incomplete: r.incomplete, Classes: r.classes}
 	for k := range r.distinct {
 		d.Distinct = append(d.Distinct, k)
 	}
@@ -417,6 +427,12 @@ func (r *Run) MergeFrom(path string) error {
 		}
 	}
 	r.nviol += d.NViol
+	for k, v := range d.Classes {
+		if r.classes == nil {
+			r.classes = map[string]int{}
+		}
+		r.classes[k] += v
+	}
 	for _, v := range d.Violations {
 		if len(r.violations) < 5 {
 			r.violations = append(r.violations, v)
